@@ -39,6 +39,10 @@ Fixpoint copy_attrs (attrs : list (string * attr)) (next : Z) : list (string * a
   | (k, AList _ items) :: r => let '(r', n') := copy_attrs r (next + 1) in ((k, AList next items) :: r', n')
   end.
 
+(* a cell without the identity of the object it refers to; object dtype *)
+Definition erase (c : cell) : cell := match c with CO _ => CO 0 | _ => c end.
+Definition is_obj (dt : dtype) : bool := match dt with DObj => true | _ => false end.
+
 Section Reindex.
   Variable pd_get_loc : list label -> label -> outcome loc.
   Variable pd_contains : list label -> label -> bool.
@@ -69,42 +73,48 @@ Section Reindex.
         else build_positions old (S i) r)
     end.
 
-  (* lines 744-745: reindexed[name][new] = self[name][old]; a slice-valued location yields an array,
-     which NumPy refuses to store in one element *)
-  Fixpoint copy_over (new_data : list cell) (positions : list (nat * loc)) (old_data : list cell) : outcome (list cell) :=
+  (* lines 749-758: reindexed[name][new] = self[name][old] — since fix 28b2a9a `copy.deepcopy(self[name][old])` when the series
+     has object dtype: a referenced object is copied (new identity, taken from the allocator `onext`), plain values (None, numbers,
+     strings: immutable) are themselves.  A slice-valued location yields an array, which NumPy refuses to store in one element. *)
+  Definition deep_cell (c : cell) (onext : Z) : cell * Z := match c with CO _ => (CO onext, onext + 1) | _ => (c, onext) end.
+  Fixpoint copy_over (deep : bool) (new_data : list cell) (positions : list (nat * loc)) (old_data : list cell) (onext : Z)
+    : outcome (list cell * Z) :=
     match positions with
-    | [] => Ret new_data
+    | [] => Ret (new_data, onext)
     | (i, LPos j _) :: r =>
         match py_get old_data j with
-        | Some c => copy_over (upd i c new_data) r old_data
+        | Some c => let '(c', n') := if deep then deep_cell c onext else (c, onext) in copy_over deep (upd i c' new_data) r old_data n'
         | None => Raise IndexError
         end
     | (_, LSlice _ _) :: _ => Raise ValueError
     end.
 
-  (* the loop over reindexed.index: each variable gets a new array (identity next, next+1, ...) *)
+  (* the loop over reindexed.index: each variable gets a new array (identity next, next+1, ...); copies of referenced objects take
+     their identities from a second counter *)
   Fixpoint reindex_vars (n : nat) (positions : list (nat * loc)) (fills : list (string * pyval)) (fv : pyval)
-           (vars : list (string * series cell)) (next : Z) : outcome (list (string * series cell)) :=
+           (vars : list (string * series cell)) (next onext : Z) : outcome (list (string * series cell) * Z) :=
     match vars with
-    | [] => Ret []
+    | [] => Ret ([], onext)
     | (name, sr) :: r =>
         bind (fill_cell n (s_dtype sr) (fill_for fills fv name)) (fun c =>
-        bind (copy_over (repeat c n) positions (s_data sr)) (fun d =>
-        bind (reindex_vars n positions fills fv r (next + 1)) (fun r' =>
-        Ret ((name, mkSeries (s_dtype sr) next d) :: r'))))
+        bind (copy_over (is_obj (s_dtype sr)) (repeat c n) positions (s_data sr) onext) (fun '(d, on1) =>
+        bind (reindex_vars n positions fills fv r (next + 1) on1) (fun '(r', on2) =>
+        Ret ((name, mkSeries (s_dtype sr) next d) :: r', on2))))
     end.
 
-  (* VectorContainer.reindex.  new_span_id = identity of the span object passed by the caller,
-     fresh = an identity not yet in use (the allocator) *)
+  (* VectorContainer.reindex.  new_span_id = identity of the span object passed by the caller (since fix af303e7 NOT adopted by
+     the result: `reindexed.__dict__['span'] = copy.deepcopy(span)`), fresh = an identity not yet in use (the allocator): the
+     result's span object is `fresh`, then the deep-copied attributes, the new arrays, the copies of referenced objects *)
   Definition reindex_M (st : cst) (new_span : span) (new_span_id : Z) (fill_value : pyval)
              (strict : option bool) (fills : list (string * pyval)) (fresh : Z) : outcome cst :=
     let strict' := match strict with None => c_strict st | Some b => b end in
     if strict' && existsb (fun kv => negb (mem_name (fst kv) (c_vars st))) fills then Raise KeyError
     else
       bind (build_positions (c_span st) 0 (span_labels new_span)) (fun positions =>
-      let '(attrs', next) := copy_attrs (c_attrs st) fresh in
-      bind (reindex_vars (length (span_labels new_span)) positions fills fill_value (c_vars st) next) (fun vars' =>
-      Ret (mkC new_span new_span_id vars' attrs' (c_strict st)))).
+      let '(attrs', next) := copy_attrs (c_attrs st) (fresh + 1) in
+      bind (reindex_vars (length (span_labels new_span)) positions fills fill_value (c_vars st) next
+                         (next + Z.of_nat (length (c_vars st)))) (fun '(vars', _) =>
+      Ret (mkC new_span fresh vars' attrs' (c_strict st)))).
 
   (* BaseModel.reindex: status '-' (SolutionStatus.UNSOLVED.value) and iterations -1 unless given *)
   Definition unsolved_value : string := nth 0 status_values "-".
